@@ -37,7 +37,10 @@ struct Tracked {
         o.movedFrom = true;
         return *this;
     }
-    ~Tracked() { g_liveValues--; }
+    virtual ~Tracked() { g_liveValues--; }
+};
+struct TrackedDerived : Tracked {
+    using Tracked::Tracked;
 };
 using MoveOnly = std::unique_ptr<Tracked>;
 
@@ -54,12 +57,17 @@ struct ValueOps;
 template<>
 struct ValueOps<Tracked> {
     static Tracked make(int id) { return Tracked(id); }
+    // a value of another type the result can be constructed from: QXmppPromise::finish() has an overload of its own for that
+    template<typename P>
+    static void finishConverting(P &p, int id) { p.finish(id); }
     static int idOf(const Tracked &v) { return v.movedFrom ? -1000 - v.id : v.id; }
     static const char *name() { return "copyable"; }
 };
 template<>
 struct ValueOps<MoveOnly> {
     static MoveOnly make(int id) { return std::make_unique<Tracked>(id); }
+    template<typename P>
+    static void finishConverting(P &p, int id) { p.finish(std::make_unique<TrackedDerived>(id)); }   // unique_ptr<Derived> -> unique_ptr<Base>
     static int idOf(const MoveOnly &v) { return v ? (v->movedFrom ? -1000 - v->id : v->id) : -1; }
     static const char *name() { return "move-only"; }
 };
@@ -230,7 +238,7 @@ static void checkInvariants(World<T> &w, Ctx &c, const char *when)
 }
 
 template<typename T>
-static void runWorld(Tape &t, Ctx &c, int maxLen, bool small)
+static void runWorld(Tape &t, Ctx &c, int maxLen, bool small, bool convertingFinish = false)
 {
     using VO = std::conditional_t<std::is_void_v<T>, ValueOps<Tracked>, ValueOps<std::conditional_t<std::is_void_v<T>, Tracked, T>>>;
     long values0 = g_liveValues, closures0 = g_liveClosures;
@@ -330,10 +338,14 @@ static void runWorld(Tape &t, Ctx &c, int maxLen, bool small)
                 } else if constexpr (!World<T>::isVoid) {
                     w.stored = vid;
                 }
-                if constexpr (World<T>::isVoid)
+                if constexpr (World<T>::isVoid) {
                     w.promises[0]->finish();
-                else
+                } else if (convertingFinish) {
+                    w.log += "[converting]";
+                    ValueOps<T>::finishConverting(*w.promises[0], vid);
+                } else {
                     w.promises[0]->finish(ValueOps<T>::make(vid));
+                }
                 break;
             }
             case 2: {
@@ -454,10 +466,13 @@ static void runWorld(Tape &t, Ctx &c, int maxLen, bool small)
 static void body(Tape &t, Ctx &c, bool small)
 {
     int maxLen = int(c.param("len", small ? 5 : 20));
-    switch (t.u(3)) {
+    switch (t.u(5)) {
     case 0: runWorld<void>(t, c, maxLen, small); break;
     case 1: runWorld<Tracked>(t, c, maxLen, small); break;
     case 2: runWorld<MoveOnly>(t, c, maxLen, small); break;
+    // the same worlds finished through the converting overload finish(U&&), U != T
+    case 3: c.label("finish:converting"); runWorld<Tracked>(t, c, maxLen, small, true); break;
+    case 4: c.label("finish:converting"); runWorld<MoveOnly>(t, c, maxLen, small, true); break;
     }
 }
 
